@@ -81,26 +81,79 @@ func listenTCP(addr string) (*net.TCPListener, int, error) {
 	return l.(*net.TCPListener), l.Addr().(*net.TCPAddr).Port, nil
 }
 
-// freeServerPort finds a port that is free for tcp and udp on 127.0.0.1.
-func freeServerPort(taken map[int]bool) (int, error) {
-	for i := 0; i < 200; i++ {
-		l, p, err := listenTCP("127.0.0.1:0")
-		if err != nil {
-			return 0, err
+// Server ports are taken from below the kernel's ephemeral range (32768..60999 here):
+// a port found free and released is otherwise handed out again, within the moment it
+// takes the server to bind it, to somebody's outgoing connection or ":0" listener on
+// this busy machine - and the harness would talk to a stranger. The starting point
+// depends on the process so that concurrent runs look at different ports, and after
+// start-up ownListener verifies that the listeners are really this process's.
+var portCursor = 20000 + (os.Getpid()*7919)%11000
+
+func freeServerPort(taken map[int]bool, alsoOn string) (int, error) {
+	for i := 0; i < 4000; i++ {
+		p := portCursor
+		portCursor++
+		if portCursor >= 32000 {
+			portCursor = 20000
 		}
-		l.Close()
-		if taken[p] || p > 65000 {
+		if taken[p] {
 			continue
 		}
+		l, _, err := listenTCP(fmt.Sprintf("127.0.0.1:%d", p))
+		if err != nil {
+			continue
+		}
+		l.Close()
 		u, err := net.ListenPacket("udp", fmt.Sprintf("127.0.0.1:%d", p))
 		if err != nil {
 			continue
 		}
 		u.Close()
+		if alsoOn != "" {
+			l, _, err := listenTCP(fmt.Sprintf("%s:%d", alsoOn, p))
+			if err != nil {
+				continue
+			}
+			l.Close()
+		}
 		taken[p] = true
 		return p, nil
 	}
 	return 0, fmt.Errorf("no free port")
+}
+
+// ownListener reports whether this process holds a socket bound to 127.0.0.1:port
+// (listening, for tcp).
+func ownListener(proto string, port int) bool {
+	data, err := os.ReadFile("/proc/net/" + proto)
+	if err != nil {
+		return true // cannot tell: do not block the run
+	}
+	want := fmt.Sprintf("0100007F:%04X", port)
+	inodes := map[string]bool{}
+	for _, ln := range strings.Split(string(data), "\n")[1:] {
+		f := strings.Fields(ln)
+		if len(f) < 10 || f[1] != want {
+			continue
+		}
+		if proto == "tcp" && f[3] != "0A" {
+			continue
+		}
+		inodes["socket:["+f[9]+"]"] = true
+	}
+	if len(inodes) == 0 {
+		return false
+	}
+	ents, err := os.ReadDir("/proc/self/fd")
+	if err != nil {
+		return true
+	}
+	for _, ent := range ents {
+		if l, err := os.Readlink("/proc/self/fd/" + ent.Name()); err == nil && inodes[l] {
+			return true
+		}
+	}
+	return false
 }
 
 func startEnv() (*labEnv, error) {
@@ -115,7 +168,7 @@ func startEnv() (*labEnv, error) {
 	taken := map[int]bool{}
 	var ports [5]int
 	for i := range ports {
-		if ports[i], err = freeServerPort(taken); err != nil {
+		if ports[i], err = freeServerPort(taken, ""); err != nil {
 			return nil, err
 		}
 	}
@@ -127,26 +180,11 @@ func startEnv() (*labEnv, error) {
 	}
 	// host-only director: the backend must listen on the port number the proxy
 	// service listens on, at another loopback address
-	for i := 0; ; i++ {
-		b, err := newHTTPBackend("127.0.0.2:0")
-		if err != nil {
-			return nil, err
-		}
-		p := b.port
-		l, _, lerr := listenTCP(fmt.Sprintf("127.0.0.1:%d", p))
-		if lerr == nil && !taken[p] {
-			l.Close()
-			taken[p] = true
-			e.http2B, e.http2Port = b, p
-			break
-		}
-		if l != nil {
-			l.Close()
-		}
-		b.close()
-		if i > 50 {
-			return nil, fmt.Errorf("no port free on both 127.0.0.1 and 127.0.0.2")
-		}
+	if e.http2Port, err = freeServerPort(taken, "127.0.0.2"); err != nil {
+		return nil, err
+	}
+	if e.http2B, err = newHTTPBackend(fmt.Sprintf("127.0.0.2:%d", e.http2Port)); err != nil {
+		return nil, err
 	}
 	if e.sshB, err = newSSHBackend("127.0.0.1:0"); err != nil {
 		return nil, err
@@ -233,6 +271,16 @@ func startEnv() (*labEnv, error) {
 				return nil, fmt.Errorf("proxy port %d never became connectable: %v", p, err)
 			}
 			time.Sleep(5 * time.Millisecond)
+		}
+	}
+	for _, p := range []int{e.dnsPort, e.copyPort, e.sshPort, e.http2Port, e.httpPort} {
+		if !ownListener("tcp", p) {
+			return nil, fmt.Errorf("tcp port %d is not served by this process's server (taken by somebody else in the meantime)", p)
+		}
+	}
+	for _, p := range []int{e.copyUPort, e.dnsPort} {
+		if !ownListener("udp", p) {
+			return nil, fmt.Errorf("udp port %d is not served by this process's server", p)
 		}
 	}
 	// the probes made the proxies dial their backends; let that settle and forget it
